@@ -35,6 +35,7 @@ thread_local! {
     static ENV: RefCell<Option<Box<dyn Env>>> = RefCell::new(None);
     static SCHED_HOOK: Cell<Option<fn(&'static str)>> = Cell::new(None);
     static MAP_SALT: Cell<u64> = Cell::new(0);
+    static COUNTER_OVERRIDE: Cell<Option<usize>> = Cell::new(None);
 }
 
 /// Installs `env` for the current thread and returns the previous one.
@@ -299,6 +300,26 @@ pub mod names_shim {
 
 // ------------------------------------------------------ global counter (H4)
 
+/// Single-threaded simulations make the process-wide counter a function of the
+/// run: while an override is set on this thread, every seam atomic on this
+/// thread reads and writes the override instead of the real atomic (so a run
+/// replays with the same node ids whatever ran earlier in the process). Never
+/// set it when more than one thread uses the atomics.
+pub fn set_counter_override(v: Option<usize>) -> Option<usize> {
+    COUNTER_OVERRIDE.with(|c| c.replace(v))
+}
+
+fn overridden<R>(f: impl FnOnce(&mut usize) -> R) -> Option<R> {
+    COUNTER_OVERRIDE.with(|c| match c.get() {
+        Some(mut v) => {
+            let r = f(&mut v);
+            c.set(Some(v));
+            Some(r)
+        }
+        None => None,
+    })
+}
+
 /// The real std atomic with a scheduling point before every operation.
 pub struct AtomicUsize(std::sync::atomic::AtomicUsize);
 
@@ -309,21 +330,37 @@ impl AtomicUsize {
 
     pub fn fetch_add(&self, v: usize, order: std::sync::atomic::Ordering) -> usize {
         sched_point("atomic.fetch_add");
+        if let Some(old) = overridden(|c| {
+            let old = *c;
+            *c = c.wrapping_add(v);
+            old
+        }) {
+            return old;
+        }
         self.0.fetch_add(v, order)
     }
 
     pub fn load(&self, order: std::sync::atomic::Ordering) -> usize {
         sched_point("atomic.load");
+        if let Some(cur) = overridden(|c| *c) {
+            return cur;
+        }
         self.0.load(order)
     }
 
     pub fn store(&self, v: usize, order: std::sync::atomic::Ordering) {
         sched_point("atomic.store");
+        if overridden(|c| *c = v).is_some() {
+            return;
+        }
         self.0.store(v, order)
     }
 
     pub fn swap(&self, v: usize, order: std::sync::atomic::Ordering) -> usize {
         sched_point("atomic.swap");
+        if let Some(old) = overridden(|c| std::mem::replace(c, v)) {
+            return old;
+        }
         self.0.swap(v, order)
     }
 
@@ -335,11 +372,28 @@ impl AtomicUsize {
         failure: std::sync::atomic::Ordering,
     ) -> Result<usize, usize> {
         sched_point("atomic.compare_exchange");
+        if let Some(r) = overridden(|c| {
+            if *c == current {
+                *c = new;
+                Ok(current)
+            } else {
+                Err(*c)
+            }
+        }) {
+            return r;
+        }
         self.0.compare_exchange(current, new, success, failure)
     }
 
     pub fn fetch_max(&self, v: usize, order: std::sync::atomic::Ordering) -> usize {
         sched_point("atomic.fetch_max");
+        if let Some(old) = overridden(|c| {
+            let old = *c;
+            *c = old.max(v);
+            old
+        }) {
+            return old;
+        }
         self.0.fetch_max(v, order)
     }
 }
